@@ -686,8 +686,7 @@ fn render_svg(args: &Args, tree: &usvg::Tree) -> Result<tiny_skia::Pixmap, Strin
             .fit_to_size(bbox.size().to_int_size())
             .ok_or_else(|| "target size is zero".to_string())?;
 
-        let mut pixmap = tiny_skia::Pixmap::new(size.width(), size.height())
-            .ok_or_else(|| "target size is too large".to_string())?;
+        let mut pixmap = new_pixmap(size)?;
 
         if !args.export_area_page {
             if let Some(background) = args.background {
@@ -712,8 +711,7 @@ fn render_svg(args: &Args, tree: &usvg::Tree) -> Result<tiny_skia::Pixmap, Strin
                 .fit_to_size(tree.size().to_int_size())
                 .ok_or_else(|| "target size is zero".to_string())?;
 
-            let mut page_pixmap = tiny_skia::Pixmap::new(size.width(), size.height())
-                .ok_or_else(|| "target size is too large".to_string())?;
+            let mut page_pixmap = new_pixmap(size)?;
 
             if let Some(background) = args.background {
                 page_pixmap.fill(svg_to_skia_color(background));
@@ -742,8 +740,7 @@ fn render_svg(args: &Args, tree: &usvg::Tree) -> Result<tiny_skia::Pixmap, Strin
             .fit_to_size(tree.size().to_int_size())
             .ok_or_else(|| "target size is zero".to_string())?;
 
-        let mut pixmap = tiny_skia::Pixmap::new(size.width(), size.height())
-            .ok_or_else(|| "target size is too large".to_string())?;
+        let mut pixmap = new_pixmap(size)?;
 
         if let Some(background) = args.background {
             pixmap.fill(svg_to_skia_color(background));
@@ -766,6 +763,22 @@ fn render_svg(args: &Args, tree: &usvg::Tree) -> Result<tiny_skia::Pixmap, Strin
     }
 
     Ok(img)
+}
+
+/// Creates a transparent pixmap without aborting when the memory cannot be allocated.
+///
+/// `tiny_skia::Pixmap::new` checks only that a row fits into i32 and then allocates with `vec![]`,
+/// which aborts the process on failure (`resvg -z 100000` asks for 48 TB).
+fn new_pixmap(size: tiny_skia::IntSize) -> Result<tiny_skia::Pixmap, String> {
+    let too_large = || "target size is too large".to_string();
+    let len = (size.width() as usize)
+        .checked_mul(size.height() as usize)
+        .and_then(|n| n.checked_mul(4))
+        .ok_or_else(too_large)?;
+    let mut data: Vec<u8> = Vec::new();
+    data.try_reserve_exact(len).map_err(|_| too_large())?;
+    data.resize(len, 0);
+    tiny_skia::Pixmap::from_vec(data, size).ok_or_else(too_large)
 }
 
 fn trim_pixmap(
